@@ -574,6 +574,9 @@ func condString(v ssa.Value, depth int) string {
 			return "." + st.Field(x.Field).Name()
 		}
 	case *ssa.Phi:
+		if x.Comment != "" && x.Comment != "rangeindex" {
+			return "phi:" + x.Comment
+		}
 		return "phi"
 	case *ssa.Next:
 		return "next"
